@@ -104,11 +104,17 @@ func runBits(entry string, bits []bool, f func([]bool) (float64, float64, float6
 			}
 		}()
 		snap := append([]bool(nil), bits...)
-		p, q, p2, q2, four := f(bits)
+		// hand the test a window with spare capacity (as a caller slicing one long capture would): the bits
+		// behind the window belong to the caller too and must stay untouched
+		guard := guardBits(bits)
+		win := guard[:len(bits):len(guard)]
+		p, q, p2, q2, four := f(win)
+		if !guardBitsIntact(guard, len(bits)) {
+			r.Mut = true
+		}
 		for i := range bits {
-			if bits[i] != snap[i] {
+			if win[i] != snap[i] {
 				r.Mut = true
-				bits[i] = snap[i]
 			}
 		}
 		pa, qa, _, _, _ := f(bits)
@@ -132,11 +138,21 @@ func runBytes(entry string, data []byte, f func([]byte) (float64, float64, float
 			}
 		}()
 		snap := append([]byte(nil), data...)
-		p, q, p2, q2, four := f(data)
-		for i := range data {
-			if data[i] != snap[i] {
+		guard := make([]byte, len(data)+32)
+		copy(guard, data)
+		for i := len(data); i < len(guard); i++ {
+			guard[i] = byte(0xA5 ^ i)
+		}
+		win := guard[:len(data):len(guard)]
+		p, q, p2, q2, four := f(win)
+		for i := len(data); i < len(guard); i++ {
+			if guard[i] != byte(0xA5^i) {
 				r.Mut = true
-				data[i] = snap[i]
+			}
+		}
+		for i := range data {
+			if win[i] != snap[i] {
+				r.Mut = true
 			}
 		}
 		pa, qa, _, _, _ := f(data)
@@ -149,6 +165,24 @@ func runBytes(entry string, data []byte, f func([]byte) (float64, float64, float
 		}
 	}()
 	return r
+}
+
+func guardBits(bits []bool) []bool {
+	g := make([]bool, len(bits)+64)
+	copy(g, bits)
+	for i := len(bits); i < len(g); i++ {
+		g[i] = (i*7+3)%5 < 2
+	}
+	return g
+}
+
+func guardBitsIntact(g []bool, n int) bool {
+	for i := n; i < len(g); i++ {
+		if g[i] != ((i*7+3)%5 < 2) {
+			return false
+		}
+	}
+	return true
 }
 
 func two(f func([]bool) (float64, float64)) func([]bool) (float64, float64, float64, float64, bool) {
